@@ -132,6 +132,8 @@ def run(ctx):
             raise
         else:
             flaky.append(str(e))   # keep going: trace validation may pin the cause deterministically
+    if ctx.cov.get("skipped", 0) > len(cases) // 2:
+        vlib.log("NOTE design conformance: %d of %d model schedules could not be imposed on the code (its fan-out differs from the model's)" % (ctx.cov["skipped"], len(cases)))
     crashed = any(v.get("signature") == "crash-under-imposed-schedule" for v in ctx.violations)
     # the same schedules in a -race build
     race_vh = os.path.join(ctx.work, "vh-race")
